@@ -13,21 +13,29 @@ THEOREMS = ["Typedpy.C15." + t for t in (
     "C15_of_safe_config", "frame_safe_tables", "tables_safe", "tables_ok",
     "C15_today", "excluded_today", "use_changes_no_view_today", "pinned_config",
     "config_no_worse", "name_keyed_registry_breaks_frame", "inplace_required_breaks_frame", "registry_fixed_example",
-    "required_fixed_example", "C15_statement_fails_with_findings", "counterexamples_are_excluded", "frame_example")]
-RULE = ("histories of 2-5 (thorough: 2-7) class definitions — roots, subclasses, Omit/Pick/Partial-derived classes, "
-        "FastSerializable classes, same-named classes, fields that implicitly wrap 1-4 user classes of which several "
-        "share a __name__ (Field[U], Array[U]), ClassReference fields, 18 kinds of self-contained typedpy fields incl. "
-        "two field-factory functions shared by all classes and inline StructureReference — interleaved with 2-8 "
-        "(thorough: 2-25) uses (construct, serialize, deserialize, structure_to_schema, create_serializer, trusted "
-        "deserialization) and toggles/restores of 3 global defaults; plus 15 directed histories around the two "
-        "repaired defects (name-keyed wrapper registry, in-place _required write).  Each history runs against the real typedpy in a process forked from a pristine interpreter; "
-        "every class is then re-defined ALONE (only the definitions it depends on + the default toggles) in another "
-        "pristine process; behaviour fingerprints (accept/reject vector with stored values over <= 60 probe argument "
-        "sets incl. instances of every user class, serialize/compact/Serializer/.serialize(), deserialize incl. missing "
-        "and extra keys, trusted deserialization, None-assignment, del, extra attribute, _required, wrapper targets, "
-        "JSON schema) are compared; the Lean World model runs the same history and its per-step observations, final "
-        "class state and interference verdict per class are compared with the real code.  non-trivial = >= 3 ops; "
-        "distinct by sha256 of the case")
+    "required_fixed_example", "C15_statement_fails_with_findings", "counterexamples_are_excluded", "frame_example",
+    "camel_key_dropped_breaks_frame", "refs_example")]
+RULE = ("histories of 2-5 (thorough: 2-7) class definitions — roots, subclasses, Omit/Pick/Partial/AllFieldsRequired/"
+        "Extend-derived classes, FastSerializable classes, same-named classes, snake_case field names of which half "
+        "come from a small pool so that unrelated classes share field names, renamed serialization keys, fields that "
+        "implicitly wrap 1-4 user classes of which several share a __name__ (Field[U], Array[U]), ClassReference "
+        "fields, positional Arrays of two Structure item types (Array(items=[A, B])), 18 kinds of self-contained "
+        "typedpy fields incl. two field-factory functions shared by all classes and inline StructureReference — "
+        "interleaved with 2-8 (thorough: 2-25) uses (construct, serialize and deserialize with camel_case_convert "
+        "on or off as a use-parameter, structure_to_schema, create_serializer, trusted deserialization) and "
+        "toggles/restores of 3 global defaults; plus ~80 directed histories: the two repaired defects, positional "
+        "item classes sharing a mapped field name with the container used before/after the items, every derivation "
+        "operator on a class with optional/defaulted/renamed fields, the same class serialized with both "
+        "camel_case_convert values in every order.  Each history runs against the real typedpy in a process forked "
+        "from a pristine interpreter; every class is then re-defined ALONE (only the definitions it depends on + the "
+        "default toggles) in another pristine process; behaviour fingerprints (accept/reject vector with stored "
+        "values over <= 60 probe argument sets incl. instances of every user class, serialize / compact / camel-case "
+        "/ Serializer / .serialize(), deserialize incl. camel-case round trip, missing and extra keys, trusted "
+        "deserialization, None-assignment, del, extra attribute, _required, wrapper targets, JSON schema) are "
+        "compared; the Lean World model runs the same history and its per-step observations (definition success, "
+        "wrapper targets, keys emitted by serialize, schema 'required', _required), final class state and "
+        "interference verdict per class are compared with the real code.  non-trivial = >= 3 ops; distinct by "
+        "sha256 of the case")
 ASSUMPTIONS = [
     "PARTIAL: only process-wide state that extract/registries.py can see (module/class-level containers, lru_cache, "
     "TypedPyDefaults/Structure globals, cls.x writes, in-place writes to definition attributes) is in the model; the "
